@@ -1,5 +1,6 @@
 import SigpyVerif.Model.C08
 import SigpyVerif.Lemmas.C08
+import SigpyVerif.Gen.ConvLinops
 /-
   C08 — convolve matches the convolution definition; the adjoints are exact.
   Property theorems only.  The length formulas, the admission test of mode 'valid', the buffer lengths
@@ -50,6 +51,14 @@ theorem conv_out_len_valid_any (m n s k : Int) (hs : 0 < s) :
   unfold Gen.convValidLen scipyLen
   simp only [Bool.false_eq_true, if_false]
   convert ceil_count (intAbs (m - n) + 1) s k hs using 4 <;> ring
+
+/-- both modes, either size order: the advertised length counts exactly the samples `0, s, 2s, …` of scipy's
+    result kept by the stride slice -/
+theorem conv_out_len_any (full : Bool) (m n s k : Int) (hs : 0 < s) :
+    (0 ≤ k ∧ k * s < scipyLen full m n) ↔ (0 ≤ k ∧ k < codeLen full m n s) := by
+  cases full with
+  | true => exact conv_out_len true m n s k hs (Or.inl rfl)
+  | false => simpa [codeLen] using conv_out_len_valid_any m n s k hs
 
 example : codeLen true 5 3 2 = 4 := by decide
 example : codeLen false 5 3 2 = 2 := by decide
@@ -326,19 +335,85 @@ theorem filter_adjoint_code_len (full : Bool) (m n s : Int) (d f y : Int → α)
       ∑ j ∈ Finset.range n.toNat, f j * star (filtAdj1At star full m n s y d j) :=
   filter_adjoint full m n s _ d f y hm hn hs (code_len_counts full m n s hs h)
 
+/-! ### the loop wiring the translator extracts (`Gen.ConvWiring`) -/
+
+/-- Everything about the three loop nests that is not an index pair, as extracted from the source, is what the
+    model assumes: the accumulated array is `output` / `data` / `filt`, zero-initialised (`np.zeros`) and updated
+    with `+=`; `_convolve` calls `signal.convolve(data[..], filt[..], mode=mode)` and applies `[slc]` to the
+    result; the adjoints call `signal.correlate(output_kj, <frozen operand>[..], mode=adjoint_mode)` without a
+    slice, the buffer is zero-initialised in both mode branches and is written only by `output_kj[slc] = output[..]`,
+    placed inside the loops that bind its index variables and before the use; the arrays are normalised to
+    `(B, c_i) + m`, `(c_o, c_i) + n`, `(B, c_o) + p`. -/
+theorem wiring_flags : convWiringOk = true ∧ adjWiringOk true = true ∧ adjWiringOk false = true := by
+  decide
+
+/-- the three loops of each nest range over `range(B)`, `range(c_o)`, `range(c_i)` (in any order), and the
+    accumulate statement is inside all three -/
+theorem wiring_loops :
+    (Gen.convLoops.Perm [.B, .co, .ci] ∧ Gen.convAccScope.Perm [.B, .co, .ci]) ∧
+    (Gen.dataAdjLoops.Perm [.B, .co, .ci] ∧ Gen.dataAdjAccScope.Perm [.B, .co, .ci]) ∧
+    (Gen.filtAdjLoops.Perm [.B, .co, .ci] ∧ Gen.filtAdjAccScope.Perm [.B, .co, .ci]) := by
+  decide
+
+/-- **`_convolve`'s loops**: for any per-term operation `K` (the strided convolution), after the nest
+    `output[b, o] = Σ_{c < c_i} K(data[b, c], filt[o, c])` — stated about the extracted index pairs
+    (`output[k, j] +=`, `data[k, i]`, `filt[j, i]`). -/
+theorem conv_wiring {β γ δ : Type} [AddCommMonoid δ] (B co ci b o : Nat) (hb : b < B) (ho : o < co)
+    (d : Int → Int → β) (f : Int → Int → γ) (K : β → γ → δ) :
+    loopSum B co ci Gen.convAccIdx b o
+        (fun b' o' c' => K (at2 d Gen.convLhsIdx b' o' c') (at2 f Gen.convRhsIdx b' o' c')) =
+      ∑ c ∈ Finset.range ci, K (d b c) (f o c) := by
+  simp only [at2, Gen.convAccIdx, Gen.convLhsIdx, Gen.convRhsIdx, pick]
+  exact loopSum_B_co B co ci b o hb ho _
+
+/-- **`_convolve_data_adjoint`'s loops**: `data[b, c] = Σ_{o < c_o} K(stuffed output[b, o], filt[o, c])`
+    (`data[k, i] +=`, `output_kj[slc] = output[k, j]`, `filt[j, i]`): the sum is over the output channels. -/
+theorem data_adj_wiring {β γ δ : Type} [AddCommMonoid δ] (B co ci b c : Nat) (hb : b < B) (hc : c < ci)
+    (y : Int → Int → β) (f : Int → Int → γ) (K : β → γ → δ) :
+    loopSum B co ci Gen.dataAdjAccIdx b c
+        (fun b' o' c' => K (at2 y Gen.dataAdjBufSrcIdx b' o' c') (at2 f Gen.dataAdjRhsIdx b' o' c')) =
+      ∑ o ∈ Finset.range co, K (y b o) (f o c) := by
+  simp only [at2, Gen.dataAdjAccIdx, Gen.dataAdjBufSrcIdx, Gen.dataAdjRhsIdx, pick]
+  exact loopSum_B_ci B co ci b c hb hc _
+
+/-- **`_convolve_filter_adjoint`'s loops**: `filt[o, c] = Σ_{b < B} K(stuffed output[b, o], data[b, c])`
+    (`filt[j, i] +=`, `output_kj[slc] = output[k, j]`, `data[k, i]`): the sum is over the batch. -/
+theorem filt_adj_wiring {β γ δ : Type} [AddCommMonoid δ] (B co ci o c : Nat) (ho : o < co) (hc : c < ci)
+    (y : Int → Int → β) (d : Int → Int → γ) (K : β → γ → δ) :
+    loopSum B co ci Gen.filtAdjAccIdx o c
+        (fun b' o' c' => K (at2 y Gen.filtAdjBufSrcIdx b' o' c') (at2 d Gen.filtAdjRhsIdx b' o' c')) =
+      ∑ b ∈ Finset.range B, K (y b o) (d b c) := by
+  simp only [at2, Gen.filtAdjAccIdx, Gen.filtAdjBufSrcIdx, Gen.filtAdjRhsIdx, pick]
+  exact loopSum_co_ci B co ci o c ho hc _
+
 /-! ### batch and channel mixing (1-D): the loop structure of the three functions is adjoint-consistent -/
 
-/-- **data adjoint with batch and channels**: summing the forward over input channels and the data adjoint
-    over output channels, `Σ_{b,o} ⟨out[b,o], y[b,o]⟩ = Σ_{b,c} ⟨d[b,c], data_adj[b,c]⟩`. -/
+/-- **data adjoint with batch and channels** (1-D, generated wiring): summing the forward over input channels
+    and the data adjoint over output channels, `Σ_{b,o} ⟨out[b,o], y[b,o]⟩ = Σ_{b,c} ⟨d[b,c], data_adj[b,c]⟩`. -/
 theorem data_adjoint_mc (full : Bool) (m n s : Int) (p B ci co : Nat) (d f y : Int → Int → Int → α)
     (hm : 1 ≤ m) (hn : 1 ≤ n) (hs : 0 < s)
     (hp : ∀ k : Int, (0 ≤ k ∧ k * s < scipyLen full m n) ↔ (0 ≤ k ∧ k < (p : Int))) :
     ∑ b ∈ Finset.range B, ∑ o ∈ Finset.range co, ∑ k ∈ Finset.range p,
-        convMC1At full m n s ci d f b o k * star (y b o k) =
+        convMC1At full m n s B co ci d f b o k * star (y b o k) =
       ∑ b ∈ Finset.range B, ∑ c ∈ Finset.range ci, ∑ i ∈ Finset.range m.toNat,
-        d b c i * star (dataAdjMC1At star full m n s co y f b c i) := by
-  unfold convMC1At dataAdjMC1At
-  simp only [sumTo_eq_sum, Finset.sum_mul, star_sum, Finset.mul_sum]
+        d b c i * star (dataAdjMC1At star full m n s B co ci y f b c i) := by
+  have eL : ∀ b ∈ Finset.range B, ∀ o ∈ Finset.range co, ∀ k ∈ Finset.range p,
+      convMC1At full m n s B co ci d f b o k * star (y b o k) =
+        (∑ c ∈ Finset.range ci, conv1At full m n s (d b c) (f o c) k) * star (y b o k) := by
+    intro b hb o ho k _
+    unfold convMC1At
+    rw [conv_wiring B co ci b o (Finset.mem_range.mp hb) (Finset.mem_range.mp ho) d f
+      (fun x v => conv1At full m n s x v k)]
+  have eR : ∀ b ∈ Finset.range B, ∀ c ∈ Finset.range ci, ∀ i ∈ Finset.range m.toNat,
+      d b c i * star (dataAdjMC1At star full m n s B co ci y f b c i) =
+        d b c i * star (∑ o ∈ Finset.range co, dataAdj1At star full m n s (y b o) (f o c) i) := by
+    intro b hb c hc i _
+    unfold dataAdjMC1At
+    rw [data_adj_wiring B co ci b c (Finset.mem_range.mp hb) (Finset.mem_range.mp hc) y f
+      (fun x v => dataAdj1At star full m n s x v i)]
+  rw [Finset.sum_congr rfl fun b hb => Finset.sum_congr rfl fun o ho => Finset.sum_congr rfl (eL b hb o ho),
+    Finset.sum_congr rfl fun b hb => Finset.sum_congr rfl fun c hc => Finset.sum_congr rfl (eR b hb c hc)]
+  simp only [Finset.sum_mul, star_sum, Finset.mul_sum]
   apply Finset.sum_congr rfl
   intro b _
   -- Σ_o Σ_k Σ_c  →  Σ_c Σ_o Σ_k ; Σ_c Σ_i Σ_o → Σ_c Σ_o Σ_i
@@ -356,17 +431,32 @@ theorem data_adjoint_mc (full : Bool) (m n s : Int) (p B ci co : Nat) (d f y : I
   intro c _
   rw [Finset.sum_comm]
 
-/-- **filter adjoint with batch and channels**: `Σ_{b,o} ⟨out[b,o], y[b,o]⟩ = Σ_{o,c} ⟨f[o,c], filt_adj[o,c]⟩`
-    (the filter adjoint sums over the batch). -/
+/-- **filter adjoint with batch and channels** (1-D, generated wiring):
+    `Σ_{b,o} ⟨out[b,o], y[b,o]⟩ = Σ_{o,c} ⟨f[o,c], filt_adj[o,c]⟩` (the filter adjoint sums over the batch). -/
 theorem filter_adjoint_mc (full : Bool) (m n s : Int) (p B ci co : Nat) (d f y : Int → Int → Int → α)
     (hm : 1 ≤ m) (hn : 1 ≤ n) (hs : 0 < s)
     (hp : ∀ k : Int, (0 ≤ k ∧ k * s < scipyLen full m n) ↔ (0 ≤ k ∧ k < (p : Int))) :
     ∑ b ∈ Finset.range B, ∑ o ∈ Finset.range co, ∑ k ∈ Finset.range p,
-        convMC1At full m n s ci d f b o k * star (y b o k) =
+        convMC1At full m n s B co ci d f b o k * star (y b o k) =
       ∑ o ∈ Finset.range co, ∑ c ∈ Finset.range ci, ∑ j ∈ Finset.range n.toNat,
-        f o c j * star (filtAdjMC1At star full m n s B y d o c j) := by
-  unfold convMC1At filtAdjMC1At
-  simp only [sumTo_eq_sum, Finset.sum_mul, star_sum, Finset.mul_sum]
+        f o c j * star (filtAdjMC1At star full m n s B co ci y d o c j) := by
+  have eL : ∀ b ∈ Finset.range B, ∀ o ∈ Finset.range co, ∀ k ∈ Finset.range p,
+      convMC1At full m n s B co ci d f b o k * star (y b o k) =
+        (∑ c ∈ Finset.range ci, conv1At full m n s (d b c) (f o c) k) * star (y b o k) := by
+    intro b hb o ho k _
+    unfold convMC1At
+    rw [conv_wiring B co ci b o (Finset.mem_range.mp hb) (Finset.mem_range.mp ho) d f
+      (fun x v => conv1At full m n s x v k)]
+  have eR : ∀ o ∈ Finset.range co, ∀ c ∈ Finset.range ci, ∀ j ∈ Finset.range n.toNat,
+      f o c j * star (filtAdjMC1At star full m n s B co ci y d o c j) =
+        f o c j * star (∑ b ∈ Finset.range B, filtAdj1At star full m n s (y b o) (d b c) j) := by
+    intro o ho c hc j _
+    unfold filtAdjMC1At
+    rw [filt_adj_wiring B co ci o c (Finset.mem_range.mp ho) (Finset.mem_range.mp hc) y d
+      (fun x v => filtAdj1At star full m n s x v j)]
+  rw [Finset.sum_congr rfl fun b hb => Finset.sum_congr rfl fun o ho => Finset.sum_congr rfl (eL b hb o ho),
+    Finset.sum_congr rfl fun o ho => Finset.sum_congr rfl fun c hc => Finset.sum_congr rfl (eR o ho c hc)]
+  simp only [Finset.sum_mul, star_sum, Finset.mul_sum]
   have e1 : ∀ b ∈ Finset.range B, ∀ o ∈ Finset.range co, ∑ k ∈ Finset.range p, ∑ c ∈ Finset.range ci,
         conv1At full m n s (d b c) (f o c) k * star (y b o k) =
       ∑ c ∈ Finset.range ci, ∑ j ∈ Finset.range n.toNat,
@@ -669,6 +759,43 @@ theorem mkAxes_ok (wrtData full : Bool) (m n s : List Int)
       rw [(adj_buf_len full a b).2]
       exact hp
 
+/-- The same on the whole admitted domain: positive sizes and strides, 'full' mode or a 'valid' combination that
+    passes the admission test (data at least as long as the filter on every axis, *or* shorter on every axis). -/
+theorem mkAxes_ok_admitted (wrtData full : Bool) (m n s : List Int)
+    (h1 : ∀ x ∈ List.zip m n, 1 ≤ x.1 ∧ 1 ≤ x.2) (hadm : full = true ∨ Gen.convValidRejects m n = false)
+    (h2 : ∀ c ∈ s, 0 < c) :
+    ∀ a ∈ mkAxes wrtData full m n s, a.ok := by
+  intro ax hax
+  unfold mkAxes at hax
+  simp only [List.mem_map] at hax
+  obtain ⟨⟨a, b, c⟩, hmem, rfl⟩ := hax
+  have hab := mem_zip3 hmem
+  have hc : c ∈ s := (List.of_mem_zip (List.of_mem_zip hmem).2).2
+  obtain ⟨ha, hb⟩ := h1 _ hab
+  have hs := h2 c hc
+  have hp : ∀ k : Int, (0 ≤ k ∧ k * c < scipyLen full a b) ↔ (0 ≤ k ∧ k < codeLen full a b c) :=
+    fun k => conv_out_len_any full a b c k hs
+  have hlen : 1 ≤ scipyLen full a b := by
+    unfold scipyLen intAbs; cases full <;> simp <;> (try split_ifs) <;> omega
+  have hpos : 0 < codeLen full a b c := ((hp 0).mp ⟨le_refl 0, by omega⟩).2
+  cases wrtData with
+  | true =>
+    refine ⟨?_, hs, le_of_lt hpos, ?_⟩
+    · simp only [if_true]
+      rw [(adj_buf_len full a b).1]
+      exact (data_adj_shift_nd full m n hadm a b hab ha hb).1
+    · simp only [if_true]
+      rw [(adj_buf_len full a b).1]
+      exact hp
+  | false =>
+    refine ⟨?_, hs, le_of_lt hpos, ?_⟩
+    · simp only [Bool.false_eq_true, if_false]
+      rw [(adj_buf_len full a b).2]
+      exact (filt_adj_shift_nd full m n hadm a b hab ha hb).1
+    · simp only [Bool.false_eq_true, if_false]
+      rw [(adj_buf_len full a b).2]
+      exact hp
+
 section ring2
 variable {α : Type} [CommRing α] [StarRing α]
 
@@ -724,12 +851,306 @@ theorem mkAxes_swap (full : Bool) (m n s : List Int) (d f : List Int → α) (k 
   intro x _
   simp
 
+/-! ### any D × batch × channel mixing, with the generated wiring -/
+
+/-- **D-dimensional data adjoint with batch and channels** (any D; generated loop wiring):
+    with `conv(d, f)[b, o] = Σ_c conv_D(d[b, c], f[o, c])[::s]` as `_convolve`'s loops compute it and
+    `adj_d(y, f)[b, c] = Σ_o correlate(stuffed y[b, o], f[o, c])` as `_convolve_data_adjoint`'s loops compute it,
+    `Σ_{b,o} ⟨conv(d, f)[b, o], y[b, o]⟩ = Σ_{b,c} ⟨d[b, c], adj_d(y, f)[b, c]⟩`. -/
+theorem data_adjoint_nd_mc (axes : List Axis) (h : ∀ a ∈ axes, a.ok) (B co ci : Nat)
+    (d f y : Int → Int → List Int → α) :
+    ∑ b ∈ Finset.range B, ∑ o ∈ Finset.range co, ∑ k ∈ idxSet (axes.map (·.p)),
+        convMCD axes B co ci d f b o k * star (y b o k) =
+      ∑ b ∈ Finset.range B, ∑ c ∈ Finset.range ci, ∑ i ∈ idxSet (axes.map (·.m)),
+        d b c i * star (dataAdjMCD star axes B co ci y f b c i) := by
+  have eL : ∀ b ∈ Finset.range B, ∀ o ∈ Finset.range co, ∀ k ∈ idxSet (axes.map (·.p)),
+      convMCD axes B co ci d f b o k * star (y b o k) =
+        (∑ c ∈ Finset.range ci, convD axes (d b c) (f o c) k) * star (y b o k) := by
+    intro b hb o ho k _
+    unfold convMCD
+    rw [conv_wiring B co ci b o (Finset.mem_range.mp hb) (Finset.mem_range.mp ho) d f
+      (fun x v => convD axes x v k)]
+  have eR : ∀ b ∈ Finset.range B, ∀ c ∈ Finset.range ci, ∀ i ∈ idxSet (axes.map (·.m)),
+      d b c i * star (dataAdjMCD star axes B co ci y f b c i) =
+        d b c i * star (∑ o ∈ Finset.range co, adjD star axes (y b o) (f o c) i) := by
+    intro b hb c hc i _
+    unfold dataAdjMCD
+    rw [data_adj_wiring B co ci b c (Finset.mem_range.mp hb) (Finset.mem_range.mp hc) y f
+      (fun x v => adjD star axes x v i)]
+  rw [Finset.sum_congr rfl fun b hb => Finset.sum_congr rfl fun o ho => Finset.sum_congr rfl (eL b hb o ho),
+    Finset.sum_congr rfl fun b hb => Finset.sum_congr rfl fun c hc => Finset.sum_congr rfl (eR b hb c hc)]
+  simp only [Finset.sum_mul, star_sum, Finset.mul_sum]
+  apply Finset.sum_congr rfl
+  intro b _
+  have e1 : ∀ o ∈ Finset.range co, ∑ k ∈ idxSet (axes.map (·.p)), ∑ c ∈ Finset.range ci,
+        convD axes (d b c) (f o c) k * star (y b o k) =
+      ∑ c ∈ Finset.range ci, ∑ i ∈ idxSet (axes.map (·.m)),
+        d b c i * star (adjD star axes (y b o) (f o c) i) := by
+    intro o _
+    rw [Finset.sum_comm]
+    apply Finset.sum_congr rfl
+    intro c _
+    exact adjoint_nd axes h (d b c) (f o c) (y b o)
+  rw [Finset.sum_congr rfl e1, Finset.sum_comm]
+  apply Finset.sum_congr rfl
+  intro c _
+  rw [Finset.sum_comm]
+
+/-- **D-dimensional filter adjoint with batch and channels** (any D; generated loop wiring; `axes` are the
+    records with the filter as the linear operand, the forward map written accordingly — `adjoint_nd_mc_code`
+    identifies it with `convMCD`): `adj_f(y, d)[o, c] = Σ_b correlate(stuffed y[b, o], d[b, c])` as
+    `_convolve_filter_adjoint`'s loops compute it satisfies
+    `Σ_{b,o} ⟨Σ_c conv_D(f[o, c], d[b, c])[::s], y[b, o]⟩ = Σ_{o,c} ⟨f[o, c], adj_f(y, d)[o, c]⟩`. -/
+theorem filter_adjoint_nd_mc (axes : List Axis) (h : ∀ a ∈ axes, a.ok) (B co ci : Nat)
+    (d f y : Int → Int → List Int → α) :
+    ∑ b ∈ Finset.range B, ∑ o ∈ Finset.range co, ∑ k ∈ idxSet (axes.map (·.p)),
+        (∑ c ∈ Finset.range ci, convD axes (f o c) (d b c) k) * star (y b o k) =
+      ∑ o ∈ Finset.range co, ∑ c ∈ Finset.range ci, ∑ j ∈ idxSet (axes.map (·.m)),
+        f o c j * star (filtAdjMCD star axes B co ci y d o c j) := by
+  have eR : ∀ o ∈ Finset.range co, ∀ c ∈ Finset.range ci, ∀ j ∈ idxSet (axes.map (·.m)),
+      f o c j * star (filtAdjMCD star axes B co ci y d o c j) =
+        f o c j * star (∑ b ∈ Finset.range B, adjD star axes (y b o) (d b c) j) := by
+    intro o ho c hc j _
+    unfold filtAdjMCD
+    rw [filt_adj_wiring B co ci o c (Finset.mem_range.mp ho) (Finset.mem_range.mp hc) y d
+      (fun x v => adjD star axes x v j)]
+  rw [Finset.sum_congr rfl fun o ho => Finset.sum_congr rfl fun c hc => Finset.sum_congr rfl (eR o ho c hc)]
+  simp only [Finset.sum_mul, star_sum, Finset.mul_sum]
+  have e1 : ∀ b ∈ Finset.range B, ∀ o ∈ Finset.range co, ∑ k ∈ idxSet (axes.map (·.p)), ∑ c ∈ Finset.range ci,
+        convD axes (f o c) (d b c) k * star (y b o k) =
+      ∑ c ∈ Finset.range ci, ∑ j ∈ idxSet (axes.map (·.m)),
+        f o c j * star (adjD star axes (y b o) (d b c) j) := by
+    intro b _ o _
+    rw [Finset.sum_comm]
+    apply Finset.sum_congr rfl
+    intro c _
+    exact adjoint_nd axes h (f o c) (d b c) (y b o)
+  rw [Finset.sum_congr rfl (fun b hb => Finset.sum_congr rfl (e1 b hb)), Finset.sum_comm]
+  apply Finset.sum_congr rfl
+  intro o _
+  rw [Finset.sum_comm]
+  apply Finset.sum_congr rfl
+  intro c _
+  rw [Finset.sum_comm]
+
+omit [CommRing α] [StarRing α] in
+/-- the advertised output lengths do not depend on which operand the records are written for -/
+theorem mkAxes_p (full : Bool) (m n s : List Int) :
+    (mkAxes false full m n s).map (·.p) = (mkAxes true full m n s).map (·.p) := by
+  unfold mkAxes
+  simp only [List.map_map]
+  apply List.map_congr_left
+  intro x _
+  simp
+
+/-- **the full statement, with the code's own formulas, branches and loop wiring** — any number of spatial
+    axes, batch, channel mixing, all strides, any commutative *-ring, on the whole admitted domain: 'full' mode, or
+    'valid' mode with the data at least as long as the filter on every axis or shorter on every axis.
+    With `conv(d, f)[b, o] = Σ_c conv_D(d[b, c], f[o, c])[::s]`,
+    `⟨conv(d, f), y⟩ = ⟨d, convolve_data_adjoint(y, f)⟩ = ⟨f, convolve_filter_adjoint(y, d)⟩`; the data adjoint
+    sums over the output channels and the filter adjoint over the batch. -/
+theorem adjoint_nd_mc_code (full : Bool) (m n s : List Int) (B co ci : Nat) (d f y : Int → Int → List Int → α)
+    (h1 : ∀ x ∈ List.zip m n, 1 ≤ x.1 ∧ 1 ≤ x.2) (hadm : full = true ∨ Gen.convValidRejects m n = false)
+    (h2 : ∀ c ∈ s, 0 < c) :
+    (∑ b ∈ Finset.range B, ∑ o ∈ Finset.range co, ∑ k ∈ idxSet ((mkAxes true full m n s).map (·.p)),
+        convMCD (mkAxes true full m n s) B co ci d f b o k * star (y b o k) =
+      ∑ b ∈ Finset.range B, ∑ c ∈ Finset.range ci, ∑ i ∈ idxSet ((mkAxes true full m n s).map (·.m)),
+        d b c i * star (dataAdjMCD star (mkAxes true full m n s) B co ci y f b c i)) ∧
+    (∑ b ∈ Finset.range B, ∑ o ∈ Finset.range co, ∑ k ∈ idxSet ((mkAxes true full m n s).map (·.p)),
+        convMCD (mkAxes true full m n s) B co ci d f b o k * star (y b o k) =
+      ∑ o ∈ Finset.range co, ∑ c ∈ Finset.range ci, ∑ j ∈ idxSet ((mkAxes false full m n s).map (·.m)),
+        f o c j * star (filtAdjMCD star (mkAxes false full m n s) B co ci y d o c j)) := by
+  refine ⟨data_adjoint_nd_mc _ (mkAxes_ok_admitted true full m n s h1 hadm h2) B co ci d f y, ?_⟩
+  rw [← filter_adjoint_nd_mc _ (mkAxes_ok_admitted false full m n s h1 hadm h2) B co ci d f y, mkAxes_p]
+  apply Finset.sum_congr rfl; intro b hb
+  apply Finset.sum_congr rfl; intro o ho
+  apply Finset.sum_congr rfl; intro k _
+  unfold convMCD
+  rw [conv_wiring B co ci b o (Finset.mem_range.mp hb) (Finset.mem_range.mp ho) d f
+    (fun x v => convD (mkAxes true full m n s) x v k)]
+  congr 1
+  apply Finset.sum_congr rfl; intro c _
+  exact (mkAxes_swap full m n s (d b c) (f o c) k).symm
+
+/-- the shapes the sums of `adjoint_nd_mc_code` run over are the caller's: data lengths `m`, filter lengths `n`
+    (for lists of equal length) -/
+theorem mkAxes_shapes (full : Bool) (m n s : List Int) (h : m.length = n.length ∧ n.length = s.length) :
+    (mkAxes true full m n s).map (·.m) = m ∧ (mkAxes false full m n s).map (·.m) = n := by
+  unfold mkAxes
+  simp only [List.map_map]
+  constructor
+  · have e : ∀ g : Int × Int × Int → Axis, (∀ x, (g x).m = x.1) →
+        (List.zip m (List.zip n s)).map ((fun x => x.m) ∘ g) = m := by
+      intro g hg
+      have : ((fun x => x.m) ∘ g) = Prod.fst := by funext x; simp [hg]
+      rw [this, List.map_fst_zip]
+      simp only [List.length_zip]; omega
+    exact e _ (fun x => by simp)
+  · have e : ∀ g : Int × Int × Int → Axis, (∀ x, (g x).m = x.2.1) →
+        (List.zip m (List.zip n s)).map ((fun x => x.m) ∘ g) = n := by
+      intro g hg
+      have : ((fun x => x.m) ∘ g) = Prod.fst ∘ Prod.snd := by funext x; simp [hg]
+      rw [this, ← List.map_map, List.map_snd_zip, List.map_fst_zip]
+      · omega
+      · simp only [List.length_zip]; omega
+    exact e _ (fun x => by simp)
+
 end ring2
 
 /-- non-vacuity: the hypotheses of the D-dim theorems hold for a 3-D 'valid' example with strides (1, 2, 1) -/
 example : (∀ x ∈ List.zip [3, 4, 2] [2, 2, 1], (1 : Int) ≤ x.1 ∧ 1 ≤ x.2 ∧ (false = true ∨ x.2 ≤ x.1)) ∧
     (∀ c ∈ [(1 : Int), 2, 1], 0 < c) := by decide
 example : (mkAxes true false [3, 4, 2] [2, 2, 1] [1, 2, 1]).map (·.p) = [2, 2, 2] := by decide
+
+/-- non-vacuity of the D-dim batch / channel theorems: the loop-wiring lemmas apply to a 2 × 2 × 3 nest, and a
+    concrete complex instance of the wired forward map (B = 1, c_o = 1, c_i = 2, D = 1, full mode) -/
+example : loopSum (α := Int) 2 2 3 Gen.dataAdjAccIdx 1 2 (fun b o c => 100 * b + 10 * o + c) = 102 + 112 := by decide
+example : convMCD (α := GI) (mkAxes true true [2] [1] [1]) 1 1 2 (fun _ c i => ⟨c + 1, i.headD 0⟩)
+    (fun _ c _ => ⟨1, c⟩) 0 0 [1] = ⟨2, 4⟩ := by decide
+
+/-- non-vacuity: the admitted-domain hypotheses hold for a 2-D 'valid' case with the filter longer on both axes -/
+example : (∀ x ∈ List.zip [2, 1] [3, 3], (1 : Int) ≤ x.1 ∧ 1 ≤ x.2) ∧
+    (false = true ∨ Gen.convValidRejects [2, 1] [3, 3] = false) ∧ (∀ c ∈ [(2 : Int), 1], 0 < c) := by decide
+example : (mkAxes false false [2, 1] [3, 3] [2, 1]).map (·.p) = [1, 3] := by decide
+
+/-! ### how `_get_convolve_params` splits the shapes -/
+
+/-- **`_get_convolve_params` splits multi-channel shapes correctly** (index expressions from `Gen.ConvParams`): for
+    `data_shape = b + (c_i,) + m` and `filt_shape = (c_o, c_i', ) + n` with `len(m) = len(n) = D ≥ 1` it returns exactly
+    `b, m, n, c_i', c_o` and raises ValueError iff the two channel counts differ. -/
+theorem split_mc (b m n : List Int) (ci ci' co : Int) (h : m.length = n.length) (hn : 1 ≤ n.length) :
+    splitShapes (b ++ ci :: m) (co :: ci' :: n) true =
+      if ci' ≠ ci then .error "ValueError"
+      else .ok { D := n.length, b := b, m := m, n := n, ci := ci', co := co } := by
+  have hD : Gen.paramD ((b ++ ci :: m).length) ((co :: ci' :: n).length) 1 = (n.length : Int) := by
+    unfold Gen.paramD; simp only [List.length_cons]; push_cast; omega
+  have eM : Gen.paramMLo (n.length) 1 = -(m.length : Int) := by unfold Gen.paramMLo; omega
+  have eN : Gen.paramNLo (n.length) 1 = -(n.length : Int) := by unfold Gen.paramNLo; omega
+  have eB : Gen.paramBHi (n.length) 1 = -((ci :: m).length : Int) := by
+    unfold Gen.paramBHi; simp only [List.length_cons]; push_cast; omega
+  have eL : Gen.paramChkLhsIdx (n.length) 1 = -(n.length : Int) - 1 := by unfold Gen.paramChkLhsIdx; omega
+  have eR : Gen.paramChkRhsIdx (n.length) 1 = -(m.length : Int) - 1 := by unfold Gen.paramChkRhsIdx; omega
+  have eCi : Gen.paramCiIdx (n.length) 1 = -(n.length : Int) - 1 := by unfold Gen.paramCiIdx; omega
+  have eCo : Gen.paramCoIdx (n.length) 1 = -((ci' :: n).length : Int) - 1 := by
+    unfold Gen.paramCoIdx; simp only [List.length_cons]; push_cast; omega
+  have g1 : pyFrom (b ++ ci :: m) (-(m.length : Int)) = m := by
+    have := pyFrom_suffix (b ++ [ci]) m (by omega)
+    simpa using this
+  have g2 : pyFrom (co :: ci' :: n) (-(n.length : Int)) = n := by
+    have := pyFrom_suffix [co, ci'] n hn
+    simpa using this
+  have g3 : pyUpto (b ++ ci :: m) (-((ci :: m).length : Int)) = b := pyUpto_prefix b (ci :: m) (by simp)
+  have g4 : pyGet (co :: ci' :: n) (-(n.length : Int) - 1) = some ci' := by
+    have := pyGet_from_end [co] ci' n
+    simpa using this
+  have g5 : pyGet (b ++ ci :: m) (-(m.length : Int) - 1) = some ci := pyGet_from_end b ci m
+  have g6 : pyGet (co :: ci' :: n) (-((ci' :: n).length : Int) - 1) = some co := by
+    have := pyGet_from_end [] co (ci' :: n)
+    simpa using this
+  have hrank : ¬ ((n.length : Int) < 1 ∨ (((b ++ ci :: m).length : Nat) : Int) < (n.length : Int) + 1) := by
+    simp only [List.length_append, List.length_cons]; push_cast; omega
+  unfold splitShapes
+  simp only [if_true, hD, hrank, if_false, Gen.paramMSrc, Gen.paramNSrc, Gen.paramBSrc, Gen.paramChkLhsSrc,
+    Gen.paramChkRhsSrc, Gen.paramCiSrc, Gen.paramCoSrc, shapeArg, eM, eN, eB, eL, eR, eCi, eCo, g1, g2, g3, g4, g5, g6]
+
+/-- the same without channels: `data_shape = b + m`, `filt_shape = n`, `c_i = c_o = 1` -/
+theorem split_sc (b m n : List Int) (h : m.length = n.length) (hn : 1 ≤ n.length) :
+    splitShapes (b ++ m) n false = .ok { D := n.length, b := b, m := m, n := n, ci := 1, co := 1 } := by
+  have hD : Gen.paramD ((b ++ m).length) (n.length) 0 = (n.length : Int) := by
+    unfold Gen.paramD; omega
+  have eM : Gen.paramMLo (n.length) 0 = -(m.length : Int) := by unfold Gen.paramMLo; omega
+  have eN : Gen.paramNLo (n.length) 0 = -(n.length : Int) := by unfold Gen.paramNLo; omega
+  have eB : Gen.paramBHi (n.length) 0 = -(m.length : Int) := by unfold Gen.paramBHi; omega
+  have g1 : pyFrom (b ++ m) (-(m.length : Int)) = m := pyFrom_suffix b m (by omega)
+  have g2 : pyFrom n (-(n.length : Int)) = n := by
+    have := pyFrom_suffix [] n hn
+    simpa using this
+  have g3 : pyUpto (b ++ m) (-(m.length : Int)) = b := pyUpto_prefix b m (by omega)
+  have hrank : ¬ ((n.length : Int) < 1 ∨ (((b ++ m).length : Nat) : Int) < (n.length : Int) + 0) := by
+    simp only [List.length_append]; push_cast; omega
+  unfold splitShapes
+  simp only [Bool.false_eq_true, if_false, hD, hrank, Gen.paramMSrc, Gen.paramNSrc, Gen.paramBSrc, shapeArg,
+    eM, eN, eB, g1, g2, g3, Gen.paramCiDefault, Gen.paramCoDefault]
+
+example : splitShapes [2, 3, 5, 4] [7, 3, 2, 2] true = .ok ⟨2, [2], [5, 4], [2, 2], 3, 7⟩ := by decide
+example : splitShapes [2, 3, 5, 4] [7, 4, 2, 2] true = .error "ValueError" := by decide
+
+/-! ### dtypes -/
+
+/-- **dtype decision table** (about the generated allocation dtypes; numpy's casting rules enter through
+    `convDtypeRule` / `adjDtypeRule`).  Every buffer of the two adjoints — the accumulated array and the
+    zero-stuffed scratch buffer in both mode branches — is allocated with the dtype of the output-side array
+    `output`, and `_convolve`'s result with the dtype of `data`.  Consequently no dtype combination ever drops an
+    imaginary part silently, and the rejected combinations (TypeError) are exactly those where numpy's in-place
+    add would have to cast a complex term into a real accumulator: complex filter with real data (`convolve`),
+    complex filter with real `output` (data adjoint), complex data with real `output` (filter adjoint). -/
+theorem dtype_rule :
+    (Gen.convAccDtype = .data ∧
+      Gen.dataAdjAccDtype = .output ∧ Gen.dataAdjBufDtypeFull = .output ∧ Gen.dataAdjBufDtypeValid = .output ∧
+      Gen.filtAdjAccDtype = .output ∧ Gen.filtAdjBufDtypeFull = .output ∧ Gen.filtAdjBufDtypeValid = .output) ∧
+    (∀ cd cf : Bool, convOutcome cd cf = if cf && !cd then .typeError else .exact) ∧
+    (∀ full cd cf cy : Bool, adjOutcome true full cd cf cy = if cf && !cy then .typeError else .exact) ∧
+    (∀ full cd cf cy : Bool, adjOutcome false full cd cf cy = if cd && !cy then .typeError else .exact) := by
+  decide
+
+/-- a complex output-side array keeps its imaginary part through both adjoints whatever the dtypes of the data
+    and the filter (in particular with a real filter / real data) -/
+theorem complex_output_exact (wrtData full cd cf : Bool) : adjOutcome wrtData full cd cf true = .exact := by
+  revert wrtData full cd cf
+  decide
+
+/-- the casting rules distinguish the outcomes (non-vacuity): a real scratch buffer under a complex `output`
+    would drop the imaginary part, a real accumulator under a complex term raises -/
+example : adjDtypeRule true false true false = .dropsImag ∧ adjDtypeRule false false false true = .typeError := by
+  decide
+
+/-! ### the Linop wrappers (`Gen.ConvLinops`) -/
+
+def partner : Gen.ConvCls → Gen.ConvCls
+  | .data => .dataAdjoint
+  | .dataAdjoint => .data
+  | .filter => .filterAdjoint
+  | .filterAdjoint => .filter
+
+/-- what `self.oshape` / `self.ishape` hold, from the class's own `super().__init__(oshape, ishape)` call -/
+def attrShape (L : Gen.ConvLinop) : Gen.LinopArg → Option Gen.LinopShape
+  | .oshape => some L.superArgs.1
+  | .ishape => some L.superArgs.2
+  | _ => none
+
+/-- the `conv.*` call each class's `_apply` must make -/
+def applySpec : Gen.ConvCls → Gen.ConvFn × List Gen.LinopArg
+  | .data => (.convolve, [.input, .array])                       -- convolve(input, filt, …)
+  | .dataAdjoint => (.dataAdjoint, [.input, .array, .oshape])    -- convolve_data_adjoint(input, filt, data_shape, …)
+  | .filter => (.convolve, [.array, .input])                     -- convolve(data, input, …)
+  | .filterAdjoint => (.filterAdjoint, [.input, .array, .oshape]) -- convolve_filter_adjoint(input, data, filt_shape, …)
+
+/-- **the four Linop classes pass consistent arguments**: for each of ConvolveData / ConvolveDataAdjoint /
+    ConvolveFilter / ConvolveFilterAdjoint, as extracted from sigpy/linop.py:
+    `_adjoint_linop` constructs the partner class with the *same* frozen array, `mode`, `strides` and
+    `multi_channel` (which `__init__` stored unchanged) and, as shape argument, the attribute (`ishape` / `oshape`)
+    that holds the class's own shape argument; the partner computes its parameters from the same (data shape,
+    filter shape) pair and registers the *swapped* (oshape, ishape); `_apply` calls the right `conv` function with
+    the stored `mode`, `strides`, `multi_channel`, and the shape it passes to the adjoint functions is the one
+    given to the constructor. -/
+theorem linop_adjoint_args_agree (c : Gen.ConvCls) :
+    let L := Gen.convLinop c
+    let P := Gen.convLinop L.adjClass
+    L.adjClass = partner c ∧
+    L.stores = true ∧ L.outputShapeOk = true ∧ P.array = L.array ∧
+    L.adjPasses = (true, true, true) ∧ L.applyPasses = (true, true, true) ∧
+    L.adjArgs.length = 2 ∧ L.adjArgs[1]? = some .array ∧
+    (L.adjArgs.head?.bind (attrShape L)) = some .shapeArg ∧
+    P.paramsArgs = L.paramsArgs ∧ P.superArgs = (L.superArgs.2, L.superArgs.1) ∧
+    (L.superArgs = (.outputShape, .shapeArg) ∨ L.superArgs = (.shapeArg, .outputShape)) ∧
+    (L.applyFn, L.applyArgs) = applySpec c ∧
+    (∀ a ∈ L.applyArgs, a = .input ∨ a = .array ∨ attrShape L a = some .shapeArg) := by
+  cases c <;> decide
+
+/-- consequently `A.H.H` is constructed with the arguments of `A` (class, array, shape attribute) -/
+theorem linop_double_adjoint (c : Gen.ConvCls) :
+    (Gen.convLinop (Gen.convLinop c).adjClass).adjClass = c := by
+  cases c <;> decide
 
 /-! ### the scalar type the driver executes -/
 
